@@ -102,7 +102,7 @@ func (s *State) ExpandMacros(program ast.Node) ast.Node {
 			return s.MacroErrorf("wrong number of macro arguments, want=%d, got=%d", len(macro.Parameters), len(args))
 		}
 
-		evalEnv := extendMacroEnv(macro, args)
+		evalEnv := s.extendMacroEnv(macro, args)
 
 		evaluated := evalEnv.Eval(macro.Body)
 
@@ -126,12 +126,17 @@ func quoteArgs(exp *ast.CallExpression) []object.Quote {
 	return args
 }
 
-func extendMacroEnv(macro *object.Macro, args []object.Quote) *State {
+func (s *State) extendMacroEnv(macro *object.Macro, args []object.Quote) *State {
 	extended := object.NewEnclosedEnvironment(macro.Env)
 
 	for paramIdx, param := range macro.Parameters {
 		extended.Set(param.Value().Literal(), args[paramIdx])
 	}
-
-	return &State{env: extended}
+	// The macro body is evaluated with the limits, output and extensions of the state expanding it
+	// (a bare State has MaxDepth 0 and no writer: any call or print in the body panicked).
+	return &State{
+		env: extended, rootEnv: extended, macroState: s.macroState, cache: NewCache(),
+		Out: s.Out, LogOut: s.LogOut, NoLog: s.NoLog, Extensions: s.Extensions,
+		MaxDepth: s.MaxDepth, Context: s.Context,
+	}
 }
